@@ -10,6 +10,7 @@
 #define VF_INPUTS(X) X(unsigned char, s, [TS + 1]) X(unsigned char, isnull, ) X(unsigned, off, ) X(unsigned char, pre, [N]) \
     X(unsigned char, g_text, [2][26]) X(double, g_val, ) X(double, strtod_val, ) X(unsigned char, dp, )
 #include "vf.h"
+#include "vf_str.h"
 #define VF_MODEL_PRINTF
 #include "vf_libc.h"
 #include "vf_ref_json.h"
